@@ -15,7 +15,7 @@ LEVEL_TEXT = ("Static structural proof of necessary conditions: (R10.1) every in
               "validator's constructor; (R10.3) the temporal rules are registered as TEMPORAL_TAG_ERROR and reachable "
               "from BaseInput.validate. The transition semantics over histories, equal-onset merging and Delay "
               "shifting are NOT decided.")
-LEVEL_EXTRA = 'Added after the seeded evaluation: (R10.4) every Delay-shifted group is appended under an index computed afresh for that group; (R10.5) already-failed rows are skipped by original_index.'
+LEVEL_EXTRA = 'Added after the seeded evaluation: (R10.4) every Delay-shifted group is appended under an index computed afresh for that group; (R10.5) already-failed rows are skipped by original_index. (R10.6) rows are ordered by onset with a stable sort.'
 
 ROWS = [{"key": "TemporalErrors." + k, "code": "TEMPORAL_TAG_ERROR"} for k in (
     "OFFSET_BEFORE_ONSET", "INSET_BEFORE_ONSET", "ONSET_SAME_DEFS_ONE_ROW", "TEMPORAL_TAG_NO_TIME",
@@ -147,6 +147,25 @@ def run(ctx):
     # ---------------- R10.4: every Delay-shifted group gets its own time point
     ctx.rule("R10.4", "each Delay-shifted group is appended under an index computed afresh for that group")
     delay_split_rule(ctx, "R10.4")
+
+    # ---------------- R10.6: rows sharing an onset keep their file order
+    ctx.rule("R10.6", "ordering rows by onset uses a stable sort (rows of one time point keep their file order)")
+    n_sorts = 0
+    for f in prog.find_module("models.df_util").functions.values():
+        for c in walk_no_nested(f.node):
+            if isinstance(c, ast.Call) and isinstance(c.func, ast.Attribute) and c.func.attr in ("sort_values", "argsort", "sort_index") \
+                    and "onset" in norm(c).lower():
+                n_sorts += 1
+                ctx.saw(f)
+                kw = {k.arg: k.value for k in c.keywords if k.arg}
+                kind = kw.get("kind")
+                ok = isinstance(kind, ast.Constant) and kind.value in ("stable", "mergesort")
+                ctx.check(ok, "R10.6", f.qualname, c, loc(f, c),
+                          "`%s` sorts with pandas' default (quicksort, not stable): rows that share an onset can come out in another "
+                          "order than in the file, so within one time point an Offset can be processed before the Onset written above "
+                          "it (spurious or missing unmatched-Offset reports)" % norm(c)[:60],
+                          desc="%s: onset sort is stable" % f.short)
+    ctx.floor("R10.6", "onset sorts in df_util", n_sorts, 1)
 
     # ---------------- R10.3
     bi = prog.find_class("BaseInput")
